@@ -66,6 +66,11 @@ type op struct {
 	Ver  bool     `json:"ver"`
 	Key  int      `json:"key"`
 	Priv bool     `json:"priv"` // impkey through ImportPrivateKey instead of ImportPublicKey
+	// newacctwo (NewAccountWatchingOnly): Key = index of the imported xpub,
+	// Fp = master key fingerprint, Sch = nil or [external, internal] address
+	// type overriding the scope's schema
+	Fp  uint32   `json:"fp,omitempty"`
+	Sch []uint32 `json:"sch,omitempty"`
 	// wallet mode only: the wallet API that performs the issuance -
 	// newaddress | newchange | createtx | createtxdry
 	Via string `json:"via,omitempty"`
@@ -103,6 +108,13 @@ type answer struct {
 	Hash     int        `json:"hash"`
 	T        int64      `json:"t"`
 	Ver      bool       `json:"ver"`
+	// addr: AddrType() and DerivationInfo().MasterKeyFingerprint; props: the
+	// same plus IsWatchOnly, the imported xpub (index) and AddrSchema
+	Ty  uint32   `json:"ty"`
+	Fp  uint32   `json:"fp"`
+	WO  bool     `json:"wo"`
+	Key int      `json:"key"`
+	Sch []uint32 `json:"sch"`
 }
 
 func (a answer) key() string { b, _ := json.Marshal(a); return string(b) }
@@ -120,9 +132,10 @@ type txObs struct {
 }
 
 type initObs struct {
-	H        int32 `json:"h"`
-	T        int64 `json:"t"`
-	Birthday int64 `json:"birthday"`
+	H        int32     `json:"h"`
+	T        int64     `json:"t"`
+	Birthday int64     `json:"birthday"`
+	Sch      [2]uint32 `json:"sch"` // the scope's address schema: external, internal address type
 }
 
 type obsT struct {
@@ -160,6 +173,7 @@ var (
 )
 
 const (
+	nXpubs   = 3 // imported account keys, derived from other seeds
 	nKeys    = 3
 	nScripts = 2
 	maxAcct  = 8
@@ -226,21 +240,132 @@ type world struct {
 	scrAddr  []btcutil.Address
 	acctKeys map[uint32]*hdkeychain.ExtendedKey
 	coinKey  *hdkeychain.ExtendedKey
+	xpubs    []*hdkeychain.ExtendedKey     // imported account keys (shared)
+	xaddr    map[[4]uint32]btcutil.Address // (xpub, branch, index, type) -> address (shared memo)
+
+	// per history: which account number is an imported (watch-only) account,
+	// with which key and schema, and the addresses that follow from it
+	wo       map[uint32]woAcct
+	woByAddr map[string][]uint32
+}
+
+type woAcct struct {
+	key int
+	sch []uint32 // nil: the scope's schema
+}
+
+// schema returns the scope's address schema as waddrmgr.AddressType values.
+func (w *world) schema() [2]uint32 {
+	sc := waddrmgr.ScopeAddrMap[w.scope]
+	return [2]uint32{uint32(sc.ExternalAddrType), uint32(sc.InternalAddrType)}
+}
+
+func typedAddr(pub []byte, ty uint32) (btcutil.Address, error) {
+	h := btcutil.Hash160(pub)
+	switch waddrmgr.AddressType(ty) {
+	case waddrmgr.PubKeyHash:
+		return btcutil.NewAddressPubKeyHash(h, params)
+	case waddrmgr.WitnessPubKey:
+		return btcutil.NewAddressWitnessPubKeyHash(h, params)
+	case waddrmgr.NestedWitnessPubKey:
+		wa, err := btcutil.NewAddressWitnessPubKeyHash(h, params)
+		if err != nil {
+			return nil, err
+		}
+		script, err := txscript.PayToAddrScript(wa)
+		if err != nil {
+			return nil, err
+		}
+		return btcutil.NewAddressScriptHash(script, params)
+	}
+	return nil, fmt.Errorf("unsupported address type %d", ty)
 }
 
 func (w *world) pkAddr(pub []byte) (btcutil.Address, error) {
-	h := btcutil.Hash160(pub)
-	if w.scope == waddrmgr.KeyScopeBIP0084 {
-		return btcutil.NewAddressWitnessPubKeyHash(h, params)
+	return typedAddr(pub, w.schema()[0])
+}
+
+// woAddr derives branch/index of an imported account key with the given type.
+func (w *world) woAddr(key int, branch, idx, ty uint32) (btcutil.Address, error) {
+	k := [4]uint32{uint32(key), branch, idx, ty}
+	if a, ok := w.xaddr[k]; ok {
+		return a, nil
 	}
-	return btcutil.NewAddressPubKeyHash(h, params)
+	bk, err := w.xpubs[key].DeriveNonStandard(branch) // nolint:staticcheck
+	if err != nil {
+		return nil, err
+	}
+	ck, err := bk.DeriveNonStandard(idx) // nolint:staticcheck
+	if err != nil {
+		return nil, err
+	}
+	pub, err := ck.ECPubKey()
+	if err != nil {
+		return nil, err
+	}
+	a, err := typedAddr(pub.SerializeCompressed(), ty)
+	if err != nil {
+		return nil, err
+	}
+	w.xaddr[k] = a
+	return a, nil
+}
+
+func (w *world) woType(acct woAcct, branch uint32) uint32 {
+	if acct.sch != nil {
+		return acct.sch[branch]
+	}
+	return w.schema()[branch]
+}
+
+// setWO records that account number n is (now) an imported account; unsetWO
+// that it is a default one.
+func (w *world) setWO(n uint32, key int, sch []uint32) error {
+	acct := woAcct{key: key, sch: sch}
+	w.wo[n] = acct
+	for b := uint32(0); b < 2; b++ {
+		for i := uint32(0); i < maxIdx; i++ {
+			a, err := w.woAddr(key, b, i, w.woType(acct, b))
+			if err != nil {
+				return err
+			}
+			w.woByAddr[a.EncodeAddress()] = []uint32{0, n, b, i}
+		}
+	}
+	return nil
+}
+
+func (w *world) unsetWO(n uint32) { delete(w.wo, n) }
+
+func (w *world) xpubIndex(k *hdkeychain.ExtendedKey) int {
+	if k == nil {
+		return -1
+	}
+	for i, x := range w.xpubs {
+		if x.String() == k.String() {
+			return i
+		}
+	}
+	return -1
 }
 
 var worlds = map[uint32]*world{}
 
-// newWorld returns the (memoised) table of one scope, with every chained
-// address of the small universe entered.
+// newWorld returns the table of one scope (memoised, with every chained
+// address of the small universe entered) with a fresh per-history overlay for
+// imported accounts.
 func newWorld(scope uint32) (*world, error) {
+	base, err := baseWorld(scope)
+	if err != nil {
+		return nil, err
+	}
+	w := *base
+	w.wo = map[uint32]woAcct{}
+	w.woByAddr = map[string][]uint32{}
+	return &w, nil
+}
+
+func baseWorld(scope uint32) (*world, error) {
 	if w, ok := worlds[scope]; ok {
 		return w, nil
 	}
@@ -263,7 +388,7 @@ func newWorld(scope uint32) (*world, error) {
 
 func buildWorld(scope uint32) (*world, error) {
 	w := &world{byAddr: map[string][]uint32{}, chain: map[[3]uint32]btcutil.Address{},
-		acctKeys: map[uint32]*hdkeychain.ExtendedKey{}}
+		acctKeys: map[uint32]*hdkeychain.ExtendedKey{}, xaddr: map[[4]uint32]btcutil.Address{}}
 	switch scope {
 	case 84:
 		w.scope = waddrmgr.KeyScopeBIP0084
@@ -283,6 +408,25 @@ func buildWorld(scope uint32) (*world, error) {
 	w.coinKey, err = purpose.DeriveNonStandard(w.scope.Coin + hdkeychain.HardenedKeyStart) // nolint:staticcheck
 	if err != nil {
 		return nil, err
+	}
+	// imported account keys: m/purpose'/coin'/0' of other seeds, neutered
+	for j := 0; j < nXpubs; j++ {
+		other, err := hdkeychain.NewMaster(bytes.Repeat([]byte{byte(0xa0 + j)}, 32), params)
+		if err != nil {
+			return nil, err
+		}
+		k := other
+		for _, c := range []uint32{w.scope.Purpose, w.scope.Coin, 0} {
+			k, err = k.DeriveNonStandard(c + hdkeychain.HardenedKeyStart) // nolint:staticcheck
+			if err != nil {
+				return nil, err
+			}
+		}
+		pub, err := k.Neuter()
+		if err != nil {
+			return nil, err
+		}
+		w.xpubs = append(w.xpubs, pub)
 	}
 	for i := 0; i < nKeys; i++ {
 		d := sha256.Sum256([]byte(fmt.Sprintf("c08-key-%d", i)))
@@ -357,6 +501,9 @@ func (w *world) addrOf(ref []uint32) (btcutil.Address, error) {
 	}
 	switch ref[0] {
 	case 0:
+		if acct, ok := w.wo[ref[1]]; ok && ref[2] < 2 {
+			return w.woAddr(acct.key, ref[2], ref[3], w.woType(acct, ref[2]))
+		}
 		return w.chainAddr(ref[1], ref[2], ref[3])
 	case 1:
 		if int(ref[1]) < len(w.keyAddr) {
@@ -373,6 +520,11 @@ func (w *world) addrOf(ref []uint32) (btcutil.Address, error) {
 // refOf projects a real address to its reference; chained addresses of the
 // small universe are entered on demand.
 func (w *world) refOf(a btcutil.Address) []uint32 {
+	if r, ok := w.woByAddr[a.EncodeAddress()]; ok {
+		if _, still := w.wo[r[1]]; still {
+			return r
+		}
+	}
 	if r, ok := w.byAddr[a.EncodeAddress()]; ok {
 		return r
 	}
@@ -656,7 +808,14 @@ func stampOf(o op) waddrmgr.BlockStamp {
 
 // apply runs one op of the history against a manager inside an open
 // transaction; rw is nil in a read transaction (write ops then fail).
-func apply(w *world, in *inst, rd walletdb.ReadBucket, rw walletdb.ReadWriteBucket, o op) answer {
+func apply(w *world, in *inst, rd walletdb.ReadBucket, rw walletdb.ReadWriteBucket, o op) (res answer) {
+	// a panicking call (ExtendAddresses on an imported account dereferences a
+	// nil key - finding S3) is an outcome, not the end of the history
+	defer func() {
+		if p := recover(); p != nil {
+			res = answer{K: "err", Err: "panic"}
+		}
+	}()
 	needW := func() *answer {
 		if rw == nil {
 			a := answer{K: "err", Err: "other:write op in read transaction"}
@@ -672,6 +831,27 @@ func apply(w *world, in *inst, rd walletdb.ReadBucket, rw walletdb.ReadWriteBuck
 		}
 		n, err := sm.NewAccount(rw, nameOf(o.Name))
 		if err != nil {
+			return errAns(err)
+		}
+		w.unsetWO(n)
+		return answer{K: "acct", Acct: n}
+	case "newacctwo":
+		if a := needW(); a != nil {
+			return *a
+		}
+		if o.Key < 0 || o.Key >= nXpubs || (o.Sch != nil && len(o.Sch) != 2) {
+			return answer{K: "err", Err: "other:bad imported account"}
+		}
+		var sch *waddrmgr.ScopeAddrSchema
+		if o.Sch != nil {
+			sch = &waddrmgr.ScopeAddrSchema{ExternalAddrType: waddrmgr.AddressType(o.Sch[0]),
+				InternalAddrType: waddrmgr.AddressType(o.Sch[1])}
+		}
+		n, err := sm.NewAccountWatchingOnly(rw, nameOf(o.Name), w.xpubs[o.Key], o.Fp, sch)
+		if err != nil {
+			return errAns(err)
+		}
+		if err := w.setWO(n, o.Key, o.Sch); err != nil {
 			return errAns(err)
 		}
 		return answer{K: "acct", Acct: n}
@@ -817,8 +997,14 @@ func apply(w *world, in *inst, rd walletdb.ReadBucket, rw walletdb.ReadWriteBuck
 		if err != nil {
 			return errAns(err)
 		}
-		return answer{K: "addr", Ref: w.refOf(ma.Address()), Acct: ma.InternalAccount(),
-			Internal: ma.Internal(), Imported: ma.Imported(), Used: ma.Used(rd)}
+		out := answer{K: "addr", Ref: w.refOf(ma.Address()), Acct: ma.InternalAccount(),
+			Internal: ma.Internal(), Imported: ma.Imported(), Used: ma.Used(rd), Ty: uint32(ma.AddrType())}
+		if pk, ok := ma.(waddrmgr.ManagedPubKeyAddress); ok {
+			if _, dp, ok := pk.DerivationInfo(); ok {
+				out.Fp = dp.MasterKeyFingerprint
+			}
+		}
+		return out
 	case "last":
 		var ma waddrmgr.ManagedAddress
 		var err error
@@ -836,8 +1022,15 @@ func apply(w *world, in *inst, rd walletdb.ReadBucket, rw walletdb.ReadWriteBuck
 		if err != nil {
 			return errAns(err)
 		}
-		return answer{K: "props", Name: nameID(p.AccountName), Ext: p.ExternalKeyCount,
-			IntN: p.InternalKeyCount, Imp: p.ImportedKeyCount}
+		out := answer{K: "props", Name: nameID(p.AccountName), Ext: p.ExternalKeyCount,
+			IntN: p.InternalKeyCount, Imp: p.ImportedKeyCount, WO: p.IsWatchOnly, Fp: p.MasterKeyFingerprint}
+		if p.AddrSchema != nil {
+			out.Sch = []uint32{uint32(p.AddrSchema.ExternalAddrType), uint32(p.AddrSchema.InternalAddrType)}
+		}
+		if p.IsWatchOnly {
+			out.Key = w.xpubIndex(p.AccountPubKey)
+		}
+		return out
 	case "lookupname":
 		n, err := sm.LookupAccount(rd, nameOf(o.Name))
 		if err != nil {
@@ -931,7 +1124,9 @@ func (rn *runner) freshCopy() (*inst, string, error) {
 	if err := f.Close(); err != nil {
 		return nil, "", err
 	}
-	in, err := openInst(p, rn.w.scope, false)
+	// a restarted AND unlocked wallet: AccountProperties().IsWatchOnly of a default
+	// account depends on the lock state at the time the account was loaded
+	in, err := openInst(p, rn.w.scope, true)
 	return in, p, err
 }
 
@@ -1123,6 +1318,9 @@ func divKinds(q op, r, f answer) []string {
 			if r.Imp != f.Imp {
 				ks = append(ks, "imported_count")
 			}
+			if r.WO != f.WO || r.Fp != f.Fp || r.Key != f.Key || fmt.Sprint(r.Sch) != fmt.Sprint(f.Sch) {
+				ks = append(ks, "account_kind")
+			}
 		default:
 			ks = append(ks, "account_existence")
 		}
@@ -1171,7 +1369,7 @@ func siteOf(kind string, t *txIn) string {
 			b = 1
 		}
 		switch o.K {
-		case "newacct":
+		case "newacct", "newacctwo":
 			sawNew = true
 		case "props", "last", "next", "extend", "lookup":
 			if sawNew {
@@ -1258,7 +1456,7 @@ func siteOf(kind string, t *txIn) string {
 		if aborted {
 			return pick("Import")
 		}
-	case "account_existence":
+	case "account_existence", "account_kind":
 		if aborted {
 			return pick("NewAccount+cached-read")
 		}
@@ -1307,7 +1505,7 @@ func runHistory(e *env, in input) (*caseOut, error) {
 
 	// initial state, as the implementation reports it
 	bs := r.mgr.SyncedTo()
-	out.Obs.Init = initObs{H: bs.Height, T: bs.Timestamp.Unix(), Birthday: r.mgr.Birthday().Unix()}
+	out.Obs.Init = initObs{H: bs.Height, T: bs.Timestamp.Unix(), Birthday: r.mgr.Birthday().Unix(), Sch: w.schema()}
 	if hashID(bs.Hash) != 0 {
 		return nil, fmt.Errorf("initial synced-to is not the genesis block")
 	}
@@ -1381,7 +1579,7 @@ func runHistory(e *env, in input) (*caseOut, error) {
 					rn.heights[o.H-1] = true
 				}
 			}
-			if (o.K == "newacct" || o.K == "rename" || o.K == "lookupname") && o.Name > rn.names {
+			if (o.K == "newacct" || o.K == "newacctwo" || o.K == "rename" || o.K == "lookupname") && o.Name > rn.names {
 				rn.names = o.Name
 			}
 		}
@@ -1557,6 +1755,40 @@ func probeReadBack(e *env) (bool, error) {
 	return found, err
 }
 
+// extendWOPanics says whether ExtendAddresses on an imported account panics
+// while the manager is unlocked (finding S3: inverted watch-only test, nil
+// private key dereferenced).  The model transcribes the panic; if the source
+// stops panicking the generator stops extending imported accounts (the model
+// would then have to follow) and says so in a tag.
+var extendWOPanics = true
+
+func probeExtendWO(e *env) (bool, error) {
+	w, err := newWorld(84)
+	if err != nil {
+		return false, err
+	}
+	path := filepath.Join(e.dir, "probe2.db")
+	if err := os.WriteFile(path, e.base[0], 0600); err != nil {
+		return false, err
+	}
+	r, err := openInst(path, w.scope, true)
+	if err != nil {
+		return false, err
+	}
+	defer func() { r.close(); os.Remove(path) }()
+	var a1, a2 answer
+	uerr := walletdb.Update(r.db, func(tx walletdb.ReadWriteTx) error {
+		ns := tx.ReadWriteBucket(nsKey)
+		a1 = apply(w, r, ns, ns, op{K: "newacctwo", Name: 5, Key: 0, Fp: 7})
+		a2 = apply(w, r, ns, ns, op{K: "extend", Acct: a1.Acct, N: 2})
+		return abortdb.ErrCallerAbort
+	})
+	if !errors.Is(uerr, abortdb.ErrCallerAbort) || a1.K != "acct" {
+		return false, fmt.Errorf("probe extend: %v %v", uerr, a1)
+	}
+	return a2.K == "err" && a2.Err == "panic", nil
+}
+
 // ---------------------------------------------------------------- K (tags only)
 
 // inK mirrors the decidable trigger pattern of coq/Addr/MemDisk.v (in_K): an
@@ -1593,7 +1825,7 @@ func txInK(t txIn) bool {
 				return true
 			}
 			issued = true
-		case "newacct":
+		case "newacct", "newacctwo":
 			armed = true
 		case "lookup":
 			if armed || issued {
@@ -1612,6 +1844,9 @@ func tagsOf(in input, out *caseOut) []string {
 	set := map[string]bool{}
 	set[fmt.Sprintf("scope_%d", in.Scope)] = true
 	set[fmt.Sprintf("read_back_cached_%v", readBackCached)] = true
+	if !extendWOPanics {
+		set["extend_on_imported_account_no_longer_panics_model_outdated"] = true
+	}
 	k := false
 	onlyIssueAborted := true
 	anyAbortedIssue := false
@@ -1666,6 +1901,12 @@ func genHistory(r *gen.R, tier string) input {
 	// the dry-run scenario the property names, 2 clean: aborted transactions
 	// hold only operations without eager memory updates
 	mode := r.Pick(5, 3, 3)
+	// half of the histories import xpub accounts (NewAccountWatchingOnly).  In
+	// those, a rolled-back transaction never reads an account it has just
+	// created: a later account could then reuse the number with another key,
+	// and the model identifies a chained address with (account, branch, index)
+	wo := r.Chance(1, 2)
+	woAccts := map[uint32]bool{}
 	ntx := r.Range(3, 8)
 	if tier == "thorough" {
 		ntx = r.Range(3, 12)
@@ -1729,6 +1970,8 @@ func genHistory(r *gen.R, tier string) input {
 		}
 		var bump []pend
 		newAccts := uint32(0)
+		newWO := map[uint32]bool{}
+		sawNew := false
 		for oi := 0; oi < nops; oi++ {
 			var o op
 			kind := r.Pick(24, 6, 8, 9, 8, 9, 1, 3, 3, 4, 3, 18)
@@ -1737,6 +1980,9 @@ func genHistory(r *gen.R, tier string) input {
 			}
 			if aborted && mode == 2 {
 				kind = []int{2, 4, 8, 11, 11}[r.Intn(5)]
+			}
+			if wo && aborted && sawNew {
+				kind = []int{4, 8, 12, 12}[r.Intn(4)]
 			}
 			switch kind {
 			case 0:
@@ -1768,8 +2014,13 @@ func genHistory(r *gen.R, tier string) input {
 				if r.Chance(1, 6) && nextIdx[k] > 0 {
 					last = nextIdx[k] - 1 // nothing to do
 				}
+				if (woAccts[a] || newWO[a]) && !extendWOPanics {
+					a = 0 // the model transcribes the panic of the pinned code only
+					k = [2]uint32{a, bi}
+					last = nextIdx[k] + uint32(r.Range(0, 5))
+				}
 				o = op{K: "extend", Acct: a, Int: b, N: last}
-				if a < accts && last >= nextIdx[k] {
+				if a < accts && last >= nextIdx[k] && !woAccts[a] {
 					bump = append(bump, pend{a, bi, last + 1})
 				}
 			case 2:
@@ -1784,7 +2035,25 @@ func genHistory(r *gen.R, tier string) input {
 					nm = r.Range(2, nameCtr-1)
 				}
 				o = op{K: "newacct", Name: nm}
+				sawNew = true
+				if wo && r.Chance(1, 2) {
+					o = op{K: "newacctwo", Name: nm, Key: r.Intn(nXpubs),
+						Fp: []uint32{0, 0x11223344, 7}[r.Intn(3)]}
+					switch r.Pick(3, 2, 1, 1, 1) {
+					case 1:
+						o.Sch = []uint32{3, 4} // BIP0049Plus
+					case 2:
+						o.Sch = []uint32{0, 0}
+					case 3:
+						o.Sch = []uint32{4, 4}
+					case 4:
+						o.Sch = []uint32{3, 3}
+					}
+				}
 				if nm >= 3 && accts+newAccts < maxAcct-2 {
+					if o.K == "newacctwo" {
+						newWO[accts+newAccts] = true
+					}
 					newAccts++
 				}
 			case 3:
@@ -1842,6 +2111,20 @@ func genHistory(r *gen.R, tier string) input {
 				if r.Chance(1, 8) {
 					o.H = -1
 				}
+			case 12:
+				// a read that loads nothing into the caches
+				switch r.Pick(1, 1, 1, 1, 1) {
+				case 0:
+					o = op{K: "lookupname", Name: r.Range(2, nameCtr)}
+				case 1:
+					o = op{K: "acctname", Acct: pickAcct()}
+				case 2:
+					o = op{K: "synced"}
+				case 3:
+					o = op{K: "blockhash", H: height}
+				default:
+					o = op{K: "bdayblock"}
+				}
 			default:
 				o = readOp()
 			}
@@ -1850,6 +2133,9 @@ func genHistory(r *gen.R, tier string) input {
 		if t.Fate == "commit" {
 			for _, p := range bump {
 				nextIdx[[2]uint32{p.a, p.b}] = p.next
+			}
+			for n := range newWO {
+				woAccts[n] = true
 			}
 			accts += newAccts
 		}
@@ -1916,6 +2202,41 @@ func systematic() []input {
 			}
 		}
 	}
+	// imported xpub accounts (NewAccountWatchingOnly): created, cached, used,
+	// renamed, extended; with and without schema override / fingerprint
+	for _, imp := range []op{
+		{K: "newacctwo", Name: 5, Key: 0, Fp: 0x11223344, Sch: []uint32{3, 4}},
+		{K: "newacctwo", Name: 5, Key: 1, Fp: 0},
+		{K: "newacctwo", Name: 5, Key: 2, Fp: 7, Sch: []uint32{0, 0}},
+	} {
+		for _, scope := range []uint32{84, 44} {
+			use := txIn{Fate: "commit", Ops: []op{{K: "props", Acct: 1}, {K: "next", Acct: 1, N: 2}, {K: "next", Acct: 1, Int: true, N: 1}}}
+			out = append(out,
+				// the imported account is cached, then renamed in a COMMITTED transaction
+				input{Scope: scope, Txs: []txIn{{Fate: "commit", Ops: []op{imp}}, use,
+					{Fate: "commit", Ops: []op{{K: "rename", Acct: 1, Name: 6}}},
+					{Fate: "commit", Ops: []op{{K: "next", Acct: 1, N: 1}, {K: "markused", Addr: []uint32{0, 1, 0, 0}}}}}},
+				// renamed without having been cached; renamed in rolled-back transactions
+				input{Scope: scope, Txs: []txIn{{Fate: "commit", Ops: []op{imp, {K: "rename", Acct: 1, Name: 6}}},
+					{Fate: "failcommit", Ops: []op{{K: "rename", Acct: 1, Name: 7}}},
+					{Fate: "commit", Ops: []op{{K: "rename", Acct: 1, Name: 8}, {K: "lookupname", Name: 6}}}}},
+				// issuance from it in rolled-back transactions; a default account after it
+				input{Scope: scope, Txs: []txIn{{Fate: "commit", Ops: []op{imp}},
+					{Fate: "dryrun", Ops: []op{{K: "next", Acct: 1, Int: true, N: 2}}},
+					{Fate: "commit", Ops: []op{{K: "newacct", Name: 9}, {K: "next", Acct: 1, Int: true, N: 1}, {K: "next", Acct: 2, N: 1}}},
+					{Fate: "abort", Ops: []op{{K: "markused", Addr: []uint32{0, 1, 1, 0}}, {K: "lookup", Addr: []uint32{0, 1, 1, 0}}}}}},
+				// its creation rolled back (not read back), the number reused by a default account
+				input{Scope: scope, Txs: []txIn{{Fate: "abort", Ops: []op{imp}},
+					{Fate: "commit", Ops: []op{{K: "newacct", Name: 9}, {K: "next", Acct: 1, N: 1}}},
+					{Fate: "commit", Ops: []op{imp, {K: "next", Acct: 2, N: 1}}}}},
+			)
+			if extendWOPanics {
+				out = append(out, input{Scope: scope, Txs: []txIn{{Fate: "commit", Ops: []op{imp}}, use,
+					{Fate: "commit", Ops: []op{{K: "extend", Acct: 1, N: 5}, {K: "extend", Acct: 1, N: 0}}},
+					{Fate: "commit", Ops: []op{{K: "next", Acct: 1, N: 1}}}}})
+			}
+		}
+	}
 	// same-transaction patterns
 	out = append(out,
 		input{Scope: 84, Txs: []txIn{{Fate: "commit", Ops: []op{{K: "next", Acct: 0, N: 1}, {K: "extend", Acct: 0, N: 4}}},
@@ -1952,6 +2273,10 @@ func main() {
 		}
 		defer os.RemoveAll(e.dir)
 		readBackCached, err = probeReadBack(e)
+		if err != nil {
+			return err
+		}
+		extendWOPanics, err = probeExtendWO(e)
 		if err != nil {
 			return err
 		}
